@@ -33,6 +33,9 @@ class Ctx:
         f = os.path.realpath(self.a5.__file__)
         if not f.startswith(self.root + os.sep):
             raise RuntimeError('a5 imported from %s, expected under %s' % (f, self.root))
+        self.hotset = engine.hot_lines(os.path.join(self.root, 'a5') + os.sep)      # (filename, line)
+        pre = len(os.path.join(self.root, 'a5') + os.sep)
+        self.hot = {'%s:%d' % (f[pre:], l) for f, l in self.hotset}                   # 'rel/path.py:line'
         self._memo = {}
         self._tmemo = {}
         self._frame = None
@@ -107,7 +110,7 @@ class Ctx:
         _limit_memory()
         seam = engine.Seam(self.root, spec.get('gran', 'line'))
         seam.install()
-        return engine.run_threads_node(self.a5, seam, spec)
+        return engine.run_threads_node(self.a5, seam, spec, hot=self.hotset)
 
     def _seq_child(self, spec):
         _limit_memory()
